@@ -207,3 +207,23 @@ func zzC04_group() {
 	}
 	vReach("C04_group")
 }
+
+// zzC04_trailing: no bytes are skipped: a container whose last 1..7 bytes cannot hold an AVP header
+// is an error, at top level and inside groups.
+func zzC04_trailing() {
+	p := 4 * vLen("p4", 2, vParam("P", 12)/4)
+	t := vLen("t", 1, 7)
+	body := vBytes("body", p+t)
+	app := vU32("app")
+	d := vAbstractDict()
+	zzFrameFixed(body[:p], []int{p})
+	da, _ := d.FindAVPWithVendor(app, zzBE32(body[0:4]), 0)
+	// a string-like first AVP: the walk reaches the trailing bytes whatever the payload is
+	vAssume(body[4]&0x80 == 0 && da.Data.Type == datatype.OctetStringType)
+	zzKnownCommand(d, app, 257)
+	m, err := ReadMessage(zzNewReader(zzMessageBytes(body, 0x80, 257, app)), d)
+	vAssert(err != nil && m == nil, "trailing bytes that cannot hold an AVP header are an error")
+	g, err2 := DecodeGrouped(datatype.Grouped(body), app, d)
+	vAssert(err2 != nil && g == nil, "trailing bytes inside a group that cannot hold an AVP header are an error")
+	vReach("C04_trailing")
+}
